@@ -18,7 +18,7 @@ LEVEL = "model_checking"
 
 def model_check(rep, maxcalls):
     cfg = sc.gen_cfg("solver_mc_%d" % maxcalls, maxcalls, maxiter="{0, 2}", ext="{0, 3}", misc="{0}",
-                     settable='{"ext", "fmg", "L", "take", "caches", "maxIter", "absOn", "relOn"}', gen=False)
+                     settable='{"ext", "fmg", "L", "take", "caches", "maxIter", "absOn", "relOn", "grid"}', gen=False)
     r = vlib.tlc("Solver", cfg, heap="24g", tag="c13mc", timeout=3000)
     rep.add_tlc(r, "Solver.tla all histories <= %d calls" % maxcalls)
     if not vlib.tlc_must_hold(r, "Solver.tla"):
